@@ -24,6 +24,15 @@ CHECKS = {
  "C11": dict(level="model_checking", design="§3 C11",
    technique="paired (metamorphic) runs on two branches of every state of an explicit-state BFS: the same transfer with and without direct deposits on the orbiter account, all observations compared",
    text="For every distinct state reachable by <=2 operations of the C01 prefix alphabet, every deposit set (same denom 1/A/A+1, other denom, IGP denom, all three) and every transfer of a 100+ transfer menu (all routes incl. passthrough payloads and the IGP Hyperlane configuration x fee shapes x amounts) the transfer is executed on the state and on the state+deposits: acknowledgement bytes, every third-party balance delta, supply delta and statistics must be equal; the stray balance in the transferred denom must end on the dust collector and all other denominations must stay on the orbiter account."),
+ "C03": dict(level="fault_enumeration", design="§3 C03",
+   technique="exhaustive fault-plan enumeration (all 1-fault and all 2-fault plans over every fallible dependency call reached, 4 fault modes for the wrapped ICS-20 app) on an instrumented replica of the orbiter keeper over the real stores, plus natural failures from every state of an explicit-state prefix exploration on the real app",
+   text="For each payload shape (4 routes x fee lists x stray balance) the fault-free run lists the fallible call sites reached (store reads/writes per collection, bank sends, sweep, wrapped ICS-20 app, bridge servers, token query, event emission); every single fault and every pair is executed to completion: a success acknowledgement requires the bank ledger to equal the fault-free post-state and is tolerated only after statistics / params-read faults; otherwise the ack must be an error and the state untouched. Natural failures (blacklist, paused token factory, burn limit, paused CCTP, missing router/messenger/token, blocked recipient, orbiter pauses) are driven on the full app from every env-toggle state."),
+ "C05": dict(level="exploration", design="§3 C05",
+   technique="bounded-exhaustive enumeration of attribute menus and of the (identifier x attribute type) matrices on an instrumented replica that records the request objects reaching the bridge servers, cross-checked with the full app's typed events; real attestation for ReplaceDepositForBurn",
+   text="Cross product of CCTP (domain x mint recipient x caller lengths/values), Hyperlane (token x domain x recipient x hook x gas x max fee x metadata; quick varies 1-2 dimensions at a time, thorough the full product) and internal recipient menus, each with/without a fee: a success requires exactly one request on the server named by the protocol id with every field equal to the independently decoded payload, the post-fee amount and the orbiter account as sender; every off-diagonal (protocol id, attribute type) / (action id, attribute type) cell must be refused without reaching a bridge; ReplaceDepositForBurn is checked field-for-field with valid and invalid attestations."),
+ "C06": dict(level="exploration", design="§3 C06",
+   technique="bounded-exhaustive enumeration of all action lists up to length 3 x routes x amounts on an instrumented replica with a denomination-changing test controller registered under ACTION_SWAP, against a reference interpreter",
+   text="All 40 action lists of length 0..3 over {FEE(bps), FEE(fixed), SWAP} x {internal, cctp, hyp} x 4 amounts are executed with and without the SWAP controller registered (thorough: from 6 prior states): lists repeating an identifier or naming an action without controller must be refused; otherwise each action must see its predecessor's coin (recorded), the single route request and the ledger sink must carry exactly the final coin, and statistics must show one or two entries."),
 }
 
 NOT_YET = {}
